@@ -31,6 +31,7 @@ impl Cell {
 //@use cell.fns Cell::to_usize assumed
 //@use cell.fns Cell::bitstr assumed
 //@use cell.fns Cell::to_bitstr assumed
+//@use cell.fns Cell::to_xint assumed
 //@use cell.fns Cell::vec assumed
 //@use cell.fns Cell::with_tags assumed
 //@use cell.fns Cell::insert_tag assumed
@@ -104,6 +105,25 @@ impl State {
 //@use cursor.fns ::read_float
 //@use cursor.fns ::open_bitstr
 //@use cursor.fns ::word_close_bitstr
+//@use cursor.fns ::word_open_bitstr
+//@use cursor.fns ::pack_int_bo
+//@use cursor.fns ::bitstring_append
+
+// LIFO: close-bitstr after open-bitstr restores the previous input and offset (lemma over the two contracts)
+fn lemma_close_restores_open(xs: &mut State, s: Bitstr)
+    requires old(xs).inv(), old(xs).cursor_ok(), old(xs).stash_ok(), s.e() < usize::MAX
+    ensures true
+{
+    let ghost a: State = *xs;
+    let r1 = open_bitstr(xs, s);
+    if r1.is_ok() {
+        let r2 = word_close_bitstr(xs);
+        assert(r2 is Ok);
+        assert(xs.heap@[xs.in_ref()] == strip(a.heap@[a.in_ref()]));
+        assert(xs.heap@[xs.off_ref()] == a.heap@[a.off_ref()]);
+        assert(xs.stash() =~= a.stash());
+    }
+}
 
 // R14: the number codecs of src/bitstr.rs, decided by the Kani families of C05; here their
 // contract is "a function of the bit sequence and the byte order"
@@ -111,6 +131,9 @@ impl State {
     requires s.view().len() <= 128 ensures r == uint_of(s.view(), order), s.view().len() <= 127 ==> r <= i128::MAX { unimplemented!() }
 #[verifier::external_body] fn verif_to_int(s: &Bitstr, order: Byteorder) -> (r: i128)
     requires s.view().len() <= 128 ensures r == int_of(s.view(), order) { unimplemented!() }
+pub uninterp spec fn bits_from_int(v: i128, n: int, order: Byteorder) -> Seq<bool>;
+#[verifier::external_body] fn verif_from_int(v: i128, n: usize, order: Byteorder) -> (r: Bitstr)
+    ensures r.view() == bits_from_int(v, n as int, order), r.view().len() == n, r.s() == 0 { unimplemented!() }
 #[verifier::external_body] fn verif_to_f32(s: &Bitstr, order: Byteorder) -> (r: f32) ensures r == f32_of(s.view(), order) { unimplemented!() }
 #[verifier::external_body] fn verif_to_f64(s: &Bitstr, order: Byteorder) -> (r: f64) ensures r == f64_of(s.view(), order) { unimplemented!() }
 // R3k: the tag key constant OFFSET_LIT (a string literal cell)
